@@ -210,11 +210,6 @@ func (s *SpokFile) run(stream iostream.IOStream, runner shell.Runner, force bool
 		return nil, fmt.Errorf("Could not load spok cache file at %q: %s", cachePath, err)
 	}
 
-	// Whether or not we want to update the cache after running e.g.
-	// if there were no file dependencies to update or if the task
-	// did not succeed
-	updateCache := true
-
 	for _, taskToRun := range runOrder {
 		// Gather up all the files to be hashed into a single slice
 		var toHash []string
@@ -232,21 +227,10 @@ func (s *SpokFile) run(stream iostream.IOStream, runner shell.Runner, force bool
 
 		s.logger.Debug("Task %s depends on %d files", taskToRun.Name, len(toHash))
 
-		// If the task did not declare any file dependencies, let's not
-		// update the cache, this way it will always run
-		if len(toHash) == 0 {
-			updateCache = false
-		}
-
-		var hasher hash.Hasher
-		if force {
-			hasher = hash.AlwaysRun{}
-		} else {
-			hasher = hash.New()
-		}
-
+		// The digest always describes the real state of the dependencies, force only
+		// decides whether we look at it, this way a forced run is recorded like any other
 		hashStart := time.Now()
-		currentDigest, err := hasher.Hash(toHash)
+		currentDigest, err := hash.New().Hash(toHash)
 		if err != nil {
 			return nil, err
 		}
@@ -262,39 +246,49 @@ func (s *SpokFile) run(stream iostream.IOStream, runner shell.Runner, force bool
 
 		s.logger.Debug("Task %s current checksum: %.15s cached checksum: %.15s", taskToRun.Name, currentDigest, cachedDigest)
 
-		var result shell.Results
-		skipped := false
+		// A task with no file dependencies always runs and is never recorded
+		hasFiles := len(toHash) != 0
 
-		switch {
-		case cachedDigest == "" || currentDigest != cachedDigest:
-			// The digest is either empty or out of date, in which case the action to be taken is the same
-			// update the cache digest and run the task
-			if updateCache {
-				cachedState.Set(taskToRun.Name, currentDigest)
-			}
-			result, err = taskToRun.Run(runner, stream, s.Env())
-			if err != nil {
-				return nil, fmt.Errorf("Task %q encountered an error: %w", taskToRun.Name, err)
-			}
-
-		case currentDigest == cachedDigest:
+		if !force && hasFiles && cachedDigest != "" && currentDigest == cachedDigest {
 			// This task has been run before and its digest has not changed, therefore
 			// we don't need to run it again
-			skipped = true
-			updateCache = false
+			results = append(results, task.Result{Task: taskToRun.Name, Skipped: true})
+			continue
+		}
+
+		// The task is about to run: forget its digest first, so that if we are interrupted part way
+		// the cache never claims more than what has actually completed
+		if cachedDigest != "" {
+			cachedState.Set(taskToRun.Name, "")
+			if err := cachedState.Dump(cachePath); err != nil {
+				return nil, err
+			}
+		}
+
+		result, err := taskToRun.Run(runner, stream, s.Env())
+		if err != nil {
+			return nil, fmt.Errorf("Task %q encountered an error: %w", taskToRun.Name, err)
+		}
+
+		// Record what this task has just run against (each task on its own, whatever the others did),
+		// a failure leaves it as it was: the digest of the last successful run
+		recorded := cachedDigest
+		if result.Ok() {
+			recorded = ""
+			if hasFiles {
+				recorded = currentDigest
+			}
+		}
+		if recorded != "" {
+			s.logger.Debug("Updating cached state for task %s", taskToRun.Name)
+			cachedState.Set(taskToRun.Name, recorded)
+			if err := cachedState.Dump(cachePath); err != nil {
+				return nil, err
+			}
 		}
 
 		// Gather up all the task results
-		results = append(results, task.Result{CommandResults: result, Task: taskToRun.Name, Skipped: skipped})
-	}
-
-	// Only update the cache if force was not set, the task declares file dependencies
-	// and the task run was successful
-	if !force && updateCache && results.Ok() {
-		s.logger.Debug("Updating cached state")
-		if err := cachedState.Dump(cachePath); err != nil {
-			return nil, err
-		}
+		results = append(results, task.Result{CommandResults: result, Task: taskToRun.Name})
 	}
 
 	return results, nil
